@@ -120,7 +120,7 @@ func GenStream(r *payload.SplitMix, max int) Stream {
 	big := 0
 	for a := 0; a < nact; a++ {
 		kind := uint8(1 + r.Intn(7))
-		act := r.Intn(21)
+		act := r.Intn(22)
 		if effMax >= 1<<20 && big >= 2 && (act == 1 || act == 2) {
 			act = 0 // keep default-max streams affordable
 		}
@@ -233,6 +233,17 @@ func GenStream(r *payload.SplitMix, max int) Stream {
 			st.Edges = append(st.Edges, len(b))
 			desc = append(desc, fmt.Sprintf("long-header(s%d,m%d,len%d,hdr%d)", sid, mid, n, len(hdr)))
 			mid++
+		case act == 20: // a packet with the largest message id, then ids that would be "next" only if the counter wrapped
+			emit(refwire.Frame{Stream: sid, Message: ^uint64(0), Kind: kind, Done: true, Data: body(r.Intn(10))})
+			next := []uint64{0, 1, mid, ^uint64(0)}[r.Intn(4)]
+			emit(refwire.Frame{Stream: sid, Message: next, Kind: kind, Done: r.Intn(2) == 0, Data: body(r.Intn(10))})
+			if r.Intn(2) == 0 {
+				sid++
+				mid = 0
+				emit(refwire.Frame{Stream: sid, Message: mid, Kind: kind, Done: true, Data: body(r.Intn(10))})
+				mid++
+			}
+			desc = append(desc, fmt.Sprintf("max-message-id-then(m%d)", next))
 		case act == 12: // frame declaring a huge length, few bytes follow
 			hdr := []byte{kind<<1 | 1}
 			hdr = refwire.PutUvarint(hdr, sid)
